@@ -347,7 +347,7 @@ Qed.
 (* ------------------------------------------------------------------ the excluded shape is real (in the model) *)
 
 Definition ov_params : params :=
-  mkParams [mkSpec 0 UntilRunDone OnSignal RWC; mkSpec 1 UntilRunDone OnSignal RWC] true true false false.
+  mkParams [mkSpec 0 UntilRunDone OnSignal RWC; mkSpec 1 UntilRunDone OnSignal RWC] true true false false true.
 
 (* boot [c0]; Reload -> [c0;c1] (restart: c0 is re-launched, its goroutine has not entered Run);
    Reload -> [c0] (restart): Stop() is called on c0, then c0's pending Run begins and clears the
